@@ -412,6 +412,9 @@ class SE:
                 return fin(st, self.list_contains_eq(st, b[1], a[1]))
             if b[0] == 'data' or (b[0] == 'ref'):
                 return self.contains_data(st, b, a, fin)
+            if b[0] == 'idset':
+                if a[0] != 'id': return fin(st, BoolVal(False))
+                return fin(st, self.ctx.cnt(b[1], a[1]) > 0)
             if b[0] == 'constset':
                 if a[0] == 'key':
                     return fin(st, Or([a[1] == self.spec.key_const(self, x[1]) for x in b[1]]))
